@@ -5,14 +5,14 @@ CONSTANTS
   KeyTab <- MCKeyTab
   CurSeq <- MCCurSeq
   Special <- MCSpecial
-  Ledgers <- LedgersCover
+  Ledgers = {}
   OpenArgs <- Open05
   CloseArgs <- Close05
   ClearArgs = {TRUE, FALSE}
   Filters <- FNone
   Order <- OrderClearAlso
   CompileMode = "stated"
-INIT Init
+INIT InitCover
 NEXT Next
 INVARIANTS KeepInv BalanceSheetInv IncomeInv EquityInv TxBalanceInv FilterInv CompileInv SortedInv ExpectInv LayoutInv
 CHECK_DEADLOCK FALSE
